@@ -6,7 +6,7 @@ HOOKS = {"guard": "verif",
          "source_commits": [], "add_only": True}
 ENGINES = [
     {"name": "tlc", "path": "/verif/spec", "kind_free_text": "TLA+ specification (WitnessCore, Witness, ...) checked, used as generator (every transition emitted as JSON) and as judge of recorded traces (Trace_*.tla) by TLC 1.8.0",
-     "serves_properties": ["C01", "C02", "C03", "C04", "C05", "C06", "C07", "C08", "C09", "C10", "C11", "C12", "C16", "C20"]},
+     "serves_properties": ["C01", "C02", "C03", "C04", "C05", "C06", "C07", "C08", "C09", "C10", "C11", "C12", "C13", "C14", "C15", "C16", "C17", "C18", "C20"]},
     {"name": "driver", "path": "/verif/harness", "kind_free_text": "Go harness (own module with replace => /repo): concretiser, independent RFC 6962 / signed-note reference, drivers that execute TLC-generated behaviours against the real code and record ndjson observations",
      "serves_properties": ["C01", "C02", "C03", "C04", "C08", "C09", "C12", "C16", "C20"]},
 ]
@@ -51,6 +51,26 @@ CHECKS = {
             "note": "Trusted: TLC, the token renderer (what was written is remembered by the harness), seeded value sampling; the VALUE domain (0..2^64-1, hash bytes, checkpoint bytes) is sampled, not enumerated.",
             "technique": "TLC enumeration of the body grammar of Bastion.tla + replay into the real parser and writers + TLC trace validation"},
     "C12": seq("TLC checks Isolation on the multi-log model (logs sharing a key); every transition is executed and judged on per-log byte snapshots; TLC-generated interleavings are compared with each log's history alone (AloneEqualsInterleaved). The identity half of C12 (same id on every interface, duplicates refused at start-up) is judged by the start-up trace spec.", "DESIGN.md section 5 C12"),
+    "C13": {"engine": "tlc", "level": "model_checking", "design_ref": "DESIGN.md section 5 C13",
+            "text": "TLC checks Feeder.tla composed with the atomic witness (Justified, NothingSentUnverified, ResultOK, liveness EventuallySucceeds / NeverCosignsFork without state constraint) and lists every terminated cycle for (witness size, log size) squared x fork/junk x unverifiable with every distribution of up to 2 (thorough 4) transient failures; each is replayed on the real feeder.FeedOnce with failure-injecting stubs in front of the real witness; TLC (Trace_Feeder) judges the recorded calls.",
+            "note": "Trusted: TLC; the stubs (they fail exactly the calls the model behaviour says, and answer proofs like an honest server of the log's branch); durations are never judged (library backoff).",
+            "technique": "TLC model checking of Feeder.tla (safety + liveness) + replay of every TLC-listed behaviour into feeder.FeedOnce + TLC trace validation"},
+    "C14": {"engine": "tlc", "level": "model_checking", "design_ref": "DESIGN.md section 5 C14",
+            "text": "TLC checks OmniRun.tla (StaysOnHistory; liveness CatchesUp under weak fairness of polling, no state constraint) and lists every growth/fork/restart schedule; schedules run on the real omniwitness.Main (real HTTP, real sumdb and tlog-tiles feeders, 250 ms polling) against stub log servers over generated trees crossing 255/256/257 and 65535/65536/65537, on in-memory and SQLite storage with restarts; TLC (Trace_Omni) judges what is served after each event. The size-0 wedge is a recorded known finding.",
+            "note": "Trusted: TLC; stub log servers (x/mod's reference sumdb server, a tlog-tiles server over the harness' RFC 6962 reference); convergence deadline 100 poll intervals; wall-clock only bounds waiting, never decides a verdict other than 'did not converge within 100 intervals'.",
+            "technique": "TLC model checking of OmniRun.tla (safety + liveness) + execution of TLC-listed schedules on the assembled service + TLC trace validation"},
+    "C15": {"engine": "tlc", "level": "model_checking", "design_ref": "DESIGN.md section 5 C15",
+            "text": "TLC checks Distributor.tla and enumerates every assignment of 8 witness answers x 6 distributor answers to 1..2 (thorough 1..3) logs plus sampled assignments for up to 6 logs; each is executed on the real DistributeOnce with a stub witness and a stub distributor; TLC (Trace_Dist) judges PUTs (only verified, identical bytes, path names id and witness), per-log accounting and the overall result.",
+            "note": "Trusted: TLC; the stub witness answers are built by the harness' own note code; a 307 whose target answers 200 counts as delivered.",
+            "technique": "TLC model checking of Distributor.tla + replay of every TLC-enumerated scenario into DistributeOnce + TLC trace validation"},
     "C16": seq("Histories over 1..3 logs with the registered mux handlers and the bundled client in the loop; TLC evaluates ReadExact / LogListExact / OddId (17 odd-id classes, before and after redirects) on the observed responses.", "DESIGN.md section 5 C16"),
+    "C17": {"engine": "tlc", "level": "model_checking", "design_ref": "DESIGN.md section 5 C17",
+            "text": "The start-up machine of Omni.tla is model-checked over all configurations of 1..2 entries (StartsIffCoherent, MapAndFeedersAgree) and the real Main is run on them; the shipped logs.yaml / logs_test.yaml of the working tree are walked through Main's own functions step by step and through Main itself; TLC (Trace_Start) requires the start-up trace of the shipped data to be an accepted, coherent, serving one.",
+            "note": "A check of shipped data: the model contributes the start-up semantics and the trace binding. URL reachability is not claimed (no network).",
+            "technique": "TLC model checking of Omni.tla start-up + execution of shipped and TLC-enumerated configurations through the real start-up path + TLC trace validation"},
+    "C18": {"engine": "tlc", "level": "model_checking", "design_ref": "DESIGN.md section 5 C18",
+            "text": "TLC evaluates TilePath.tla on levels 0..7 x every carry boundary of the path encoding (+ seeded indices up to 10^9) x widths; the real SumDB client's requests must equal the specified path and tlog.Tile.Path() and be parsed back by the reference; the real sumdb feeder builds proofs for ALL pairs 1 <= from < to <= 300 (thorough 1200) plus samples to 2^20 against a stub SumDB in front of the real witness; TLC (Trace_Tile) requires acceptance by the independent verifier and the witness.",
+            "note": "Indices are sampled with every carry boundary included; the stub SumDB is x/mod's reference server over a generated tree.",
+            "technique": "TLC evaluation of TilePath.tla + replay into the real SumDB client / feeder + TLC trace validation"},
     "C20": seq("Decision-table transitions and random multi-log histories executed in a dedicated process with a recording MetricFactory; TLC evaluates CountersTrue on counters read after every step.", "DESIGN.md section 5 C20"),
 }
